@@ -30,15 +30,17 @@ const (
 	rvObj   // pointer to a local struct object with recorded constant fields
 	rvBytes // byte slice with an origin
 	rvBool  // boolean constant known on this path
+	rvFunc  // a function value (closure, method value, named function)
 )
 
 type rval struct {
 	k      rvKind
-	step   string          // rvStepErr / rvNonNil: the step kind
-	c      constant.Value  // rvConst / rvBool
-	obj    *robj           // rvObj
-	origin string          // rvBytes: "proof" (marshalled proof), "errorbody", "literal", "body"
-	from   *robj           // rvConst loaded from a field of this object
+	step   string         // rvStepErr / rvNonNil: the step kind
+	c      constant.Value // rvConst / rvBool
+	obj    *robj          // rvObj
+	origin string         // rvBytes: "proof" (marshalled proof), "errorbody", "literal", "body"
+	from   *robj          // rvConst loaded from a field of this object
+	fn     *ssa.Function  // rvFunc
 }
 
 type robj struct {
@@ -66,7 +68,7 @@ type rPath struct {
 	modeKnown  string // "", or the mode constant selected
 	exitPos    token.Pos
 	undecided  string
-	stepsAfter []string // steps executed after the first failure
+	stepsAfter []string     // steps executed after the first failure
 	pending    []pendingErr // error results of steps that have not been tested yet
 	early      []string     // steps executed while an earlier step's error was still untested
 }
@@ -78,20 +80,21 @@ type pendingErr struct {
 }
 
 type respWalker struct {
-	p       *core.Program
-	pkg     *ssa.Package
-	psT     *types.Named
-	paths   []*rPath
-	limit   int
-	nForks  int
-	modeOf  map[string]bool // accepted mode constants
+	p        *core.Program
+	pkg      *ssa.Package
+	psT      *types.Named
+	paths    []*rPath
+	limit    int
+	nForks   int
+	modeOf   map[string]bool // accepted mode constants
+	resolved map[*ssa.Call]*ssa.Function
 }
 
 type rFrame struct {
-	fn   *ssa.Function
-	env  map[ssa.Value]rval
-	w    ssa.Value // the ResponseWriter value in this frame (parameter), if any
-	req  ssa.Value // the *http.Request
+	fn  *ssa.Function
+	env map[ssa.Value]rval
+	w   ssa.Value // the ResponseWriter value in this frame (parameter), if any
+	req ssa.Value // the *http.Request
 }
 
 func (f *rFrame) clone() *rFrame {
@@ -303,7 +306,12 @@ func (rw *respWalker) val(fr *rFrame, v ssa.Value) rval {
 		}
 	case *ssa.BinOp:
 		return rw.cmp(fr, x)
-	case *ssa.Function, *ssa.MakeClosure:
+	case *ssa.Function:
+		return rval{k: rvFunc, fn: x}
+	case *ssa.MakeClosure:
+		if f, ok := x.Fn.(*ssa.Function); ok {
+			return rval{k: rvFunc, fn: f}
+		}
 		return rval{k: rvNonNil}
 	}
 	return rval{k: rvOther}
@@ -509,6 +517,24 @@ func (rw *respWalker) call(fr *rFrame, pt *rPath, c *ssa.Call, depth int) {
 		return
 	}
 	callee := com.StaticCallee()
+	if callee == nil && !com.IsInvoke() {
+		// a call through a function value known on this path: a method value stands for the method, an in-package function
+		// or closure is walked like a static callee
+		if fv := rw.val(fr, com.Value); fv.k == rvFunc && fv.fn != nil {
+			target := fv.fn
+			if strings.Contains(target.Synthetic, "bound method wrapper") {
+				for _, b := range target.Blocks {
+					for _, in := range b.Instrs {
+						if ic, ok := in.(*ssa.Call); ok && ic.Common().StaticCallee() != nil {
+							target = ic.Common().StaticCallee()
+						}
+					}
+				}
+			}
+			callee = target
+			com = &ssa.CallCommon{Value: target, Args: com.Args}
+		}
+	}
 	if k := rw.stepKind(com); k != "" {
 		pt.events = append(pt.events, rEvent{kind: "step", step: k, callee: callee, pos: c.Pos()})
 		if pt.failed != "" && k != "encode" {
@@ -547,7 +573,8 @@ func (rw *respWalker) call(fr *rFrame, pt *rPath, c *ssa.Call, depth int) {
 		return
 	}
 	// functions of the handler's own package are walked
-	if callee != nil && callee.Blocks != nil && callee.Pkg == rw.pkg && depth < 6 {
+	rw.resolved[c] = callee
+	if callee != nil && callee.Blocks != nil && (callee.Pkg == rw.pkg || (callee.Pkg == nil && callee.Origin() != nil && callee.Origin().Pkg == rw.pkg)) && depth < 6 {
 		fr.env[c] = rval{k: rvOther, origin: "__forked__"}
 		return
 	}
@@ -609,6 +636,9 @@ func (rw *respWalker) inline(fr *rFrame, pt *rPath, c *ssa.Call, b *ssa.BasicBlo
 	} else {
 		callee = com.StaticCallee()
 	}
+	if callee == nil {
+		callee = rw.resolved[c]
+	}
 	cf := &rFrame{fn: callee, env: map[ssa.Value]rval{}}
 	for k, prm := range callee.Params {
 		if k < len(com.Args) {
@@ -640,7 +670,7 @@ func (rw *respWalker) inline(fr *rFrame, pt *rPath, c *ssa.Call, b *ssa.BasicBlo
 
 // runRespFlow enumerates the handler's paths.
 func runRespFlow(p *core.Program, handler *ssa.Function, psT *types.Named, modes map[string]bool) *respWalker {
-	rw := &respWalker{p: p, pkg: handler.Pkg, psT: psT, limit: 4000, modeOf: modes}
+	rw := &respWalker{p: p, pkg: handler.Pkg, psT: psT, limit: 4000, modeOf: modes, resolved: map[*ssa.Call]*ssa.Function{}}
 	fr := &rFrame{fn: handler, env: map[ssa.Value]rval{}}
 	rw.walk(fr, &rPath{}, handler.Blocks[0], 0, nil, map[*ssa.BasicBlock]int{}, 0, func(_ *rFrame, pt *rPath, _ []rval) {
 		rw.paths = append(rw.paths, pt)
